@@ -100,6 +100,130 @@ let validate_log (log : (nat * Prog.event) list) =
     log;
   out (Printf.sprintf "val sat_ok=%d sat_bad=%d unsat=%d unsat_ok=%d unsat_bad=%d" !ok !bad !unsat !unsat_ok !unsat_bad)
 
+
+(* ------------------------------------------------------------------------------------------------
+   notwice (C18: "for PR and ID no candidate set is ever examined twice"), judged on the RECORDED
+   events of the implementation (the EV lines of the case), not on the model's own log.
+   The i-th recorded session that contains a SAT call belongs to the i-th connected component the
+   query works on (component lists as in Proofs/TopBase.v: all_comps / merged_comps, selected as in
+   SolverTop.query_comps).  Candidates of a (session, component, phase): the grounded extension of
+   the component (the start candidate, examined without a SAT call) followed by the sets decoded
+   from the recorded Sat models of the phase, in order, with the decoder of the encoder in use
+   (Encoders.assignment_to_extension, the function the model uses).  A phase is identified by the
+   search selector, the literal of largest variable among the assumptions of the call (PR: one phase
+   per session; ID: two, the enumeration of the preferred extensions and the maximal allowed set).
+   Verdict: bad when two candidates of a phase are equal as sets, or when a decoded candidate is not
+   a base set of the component (conflict-free / admissible / complete per the encoder; components of
+   at most 10 arguments).  The judge is a function of an event list so that it can be unit-tested. *)
+type rsolve = { assum : int list; ans : Cnf.answer }
+
+let rec before_arrow = function
+  | "=>" :: _ -> []
+  | x :: r -> x :: before_arrow r
+  | [] -> []
+
+(* sessions in order of creation, each with its SAT calls in order *)
+let sessions_of_events (events : string list list) : (string * rsolve list) list =
+  let order = ref [] and tbl : (string, rsolve list) Hashtbl.t = Hashtbl.create 8 in
+  Stdlib.List.iter
+    (fun toks ->
+      match toks with
+      | [ sid; "new" ] -> if not (Hashtbl.mem tbl sid) then begin order := sid :: !order; Hashtbl.replace tbl sid [] end
+      | sid :: "solve" :: r ->
+          if not (Hashtbl.mem tbl sid) then begin order := sid :: !order; Hashtbl.replace tbl sid [] end;
+          let a = Stdlib.List.filter_map int_of_string_opt (before_arrow r) in
+          Hashtbl.replace tbl sid ({ assum = a; ans = parse_answer (after_arrow r) } :: Hashtbl.find tbl sid)
+      | _ -> ())
+    events;
+  Stdlib.List.rev_map (fun sid -> (sid, Stdlib.List.rev (Hashtbl.find tbl sid))) !order
+
+let set_s (l : int list) = "{" ^ String.concat "," (Stdlib.List.map string_of_int l) ^ "}"
+
+(* one session against its component: Ok (number of candidates) or Error message *)
+let judge_session (enc : Encoders.enc) (c : Graph.comp) (sid : string) (solves : rsolve list) : (int, string) result =
+  let f = c.Graph.c_af in
+  let n = Stdlib.List.length f.AF.args in
+  let canon (l : nat list) = Stdlib.List.sort_uniq compare (Stdlib.List.map int_of_nat l) in
+  let gr = canon (Graph.grounded (Graph.view_of_af f)) in
+  let sel_of (s : rsolve) = Stdlib.List.fold_left (fun acc l -> max acc (abs l)) 0 s.assum in
+  (* phases in order of first appearance of their selector *)
+  let phases : (int * int list list ref) list ref = ref [] in
+  let err = ref None in
+  let total = ref 1 in           (* the start candidate of the (first) phase *)
+  Stdlib.List.iter
+    (fun s ->
+      match s.ans with
+      | Cnf.Sat m when !err = None ->
+          let sel = sel_of s in
+          let cands =
+            match Stdlib.List.assoc_opt sel !phases with
+            | Some r -> r
+            | None -> let r = ref [ gr ] in
+                      if !phases <> [] then incr total;
+                      phases := !phases @ [ (sel, r) ]; r in
+          let decoded = Encoders.assignment_to_extension (nat_of_int n) enc m in
+          let set = canon decoded in
+          incr total;
+          if Stdlib.List.mem set !cands then
+            err := Some (Printf.sprintf "session %s candidate %s examined twice" sid (set_s set))
+          else if n <= 10 && not (AF.baseb (Encoders.enc_base enc) f decoded) then
+            err := Some (Printf.sprintf "session %s candidate %s is not a base set" sid (set_s set))
+          else cands := set :: !cands
+      | _ -> ())
+    solves;
+  match !err with Some e -> Error e | None -> Ok !total
+
+let all_comps g = match Graph.all_ccs g with Some l -> l | None -> []
+let merged_comps g al =
+  match Graph.merged_cc_of g (Graph.cc_new g) al with
+  | Some (s', c) -> c :: (match Graph.remaining_ccs g s' with Some r -> r | None -> [])
+  | None -> []
+
+(* the components of a PR / ID query and the numbers of components that may have received a session *)
+let comps_and_counts sem q cert g al : Graph.comp list * int list =
+  let all () = let l = all_comps g in (l, [ Stdlib.List.length l ]) in
+  let merged opts = let l = merged_comps g al in (l, Stdlib.List.sort_uniq compare (opts (Stdlib.List.length l))) in
+  match sem, q with
+  | _, Solvers.QSE -> all ()
+  | AF.PR, _ -> if cert then merged (fun k -> [ min 1 k; k ]) else merged (fun k -> [ min 1 k ])
+  | AF.ID, Solvers.QDS when cert -> all ()
+  | _, _ -> if cert then merged (fun k -> [ min 1 k; k ]) else merged (fun k -> [ min 1 k ])
+
+let rec take k = function x :: r when k > 0 -> x :: take (k - 1) r | _ -> []
+let rec drop_n k = function _ :: r when k > 0 -> drop_n (k - 1) r | l -> l
+
+(* queries = [(q, cert, al)] in the order they were put to the solver object *)
+let notwice_judge sem enc g (queries : (Solvers.query * bool * nat list) list) (events : string list list) : string =
+  (* ID opens a session per component that it never uses (id_se); every used ID session has a SAT call.  A PR
+     session may have none (DS shortcut on the start candidate) and still belongs to its component. *)
+  let sess = Stdlib.List.filter (fun (_, sv) -> sem <> AF.ID || sv <> []) (sessions_of_events events) in
+  let per = Stdlib.List.map (fun (q, cert, al) -> comps_and_counts sem q cert g al) queries in
+  (* all ways of giving each query one of its admissible session counts, summing to the recorded number *)
+  let rec splits = function
+    | [] -> [ [] ]
+    | (_, opts) :: r -> Stdlib.List.concat_map (fun k -> Stdlib.List.map (fun t -> k :: t) (splits r)) opts in
+  let good = Stdlib.List.filter (fun ks -> Stdlib.List.fold_left (+) 0 ks = Stdlib.List.length sess) (splits per) in
+  match good with
+  | [ ks ] ->
+      let pairs =
+        let rest = ref sess in
+        Stdlib.List.concat (Stdlib.List.map2 (fun (comps, _) k ->
+            let mine = take k !rest in
+            rest := drop_n k !rest;
+            Stdlib.List.combine mine (take k comps)) per ks) in
+      let total = ref 0 and bad = ref None in
+      Stdlib.List.iter
+        (fun ((sid, solves), c) ->
+          if !bad = None then
+            match judge_session enc c sid solves with
+            | Ok k -> total := !total + k
+            | Error e -> bad := Some e)
+        pairs;
+      (match !bad with
+       | Some e -> "notwice bad " ^ e
+       | None -> Printf.sprintf "notwice ok %d" !total)
+  | _ -> "notwice skipped session-count"
+
 let sem_of = function
   | "GR" -> AF.GR | "CO" -> AF.CO | "PR" -> AF.PR | "ST" -> AF.ST
   | "SST" -> AF.SST | "STG" -> AF.STG | "ID" -> AF.ID | _ -> failwith "sem"
@@ -156,7 +280,15 @@ let run_one (c : case) (f : nat Store.fw) sem q cert enc (labels : int list) (sc
     | Prog.Abort _ -> out "panic abort-unknown"
     | Prog.Panic _ -> out "panic model-panic"
     | Prog.OutOfFuel _ -> out "outoffuel");
-    finish ()
+    finish ();
+    if sem = AF.PR || sem = AF.ID then begin
+      let queries =
+        (match pre with
+         | Some (pq, pc, _) -> [ (pq, pc, Stdlib.List.filter_map (fun x -> x) pre_ids) ]
+         | None -> [])
+        @ [ (q, cert, al) ] in
+      out (notwice_judge sem enc g queries (evs c))
+    end
   end
 
 let capped (c : case) =
